@@ -1,0 +1,21 @@
+// SPDX-FileCopyrightText: 2023 The Pion community <https://pion.ly>
+// SPDX-License-Identifier: MIT
+
+//go:build verif
+
+package rtp
+
+import "time"
+
+// VerifNewPacketizer is NewPacketizer with the two values NewPacketizer takes from the
+// environment (the random initial timestamp and the clock) supplied by the caller.
+// It exists only under the verif build tag, for the verification harness in /verif.
+func VerifNewPacketizer(
+	mtu uint16, pt uint8, ssrc uint32, payloader Payloader, sequencer Sequencer, clockRate uint32,
+	timestamp uint32, now func() time.Time,
+) Packetizer {
+	return &packetizer{
+		MTU: mtu, PayloadType: pt, SSRC: ssrc, Payloader: payloader, Sequencer: sequencer,
+		Timestamp: timestamp, ClockRate: clockRate, timegen: now,
+	}
+}
